@@ -27,8 +27,30 @@ def mapScope (f : Nat → Nat) : Scope → Scope
 def mapState (f : Nat → Nat) (st : State) : State :=
   { st with stack := st.stack.map (mapSlot f), scope := mapScope f st.scope }
 
+/-- a map on the scopes of the include parent chain that keeps every value (`end_ip`s there are
+never read) -/
+structure PMap where
+  fn : Scope → Scope
+  val : ∀ sc n, (fn sc).getValue n = sc.getValue n
+
+def idP : PMap := ⟨id, fun _ _ => rfl⟩
+
+/-- `mapScope` with the include parent (only read for values) mapped by `π` -/
+def mapScopeP (f : Nat → Nat) (π : PMap) : Scope → Scope
+  | .mk loops sv p ctx g => .mk (loops.map (mapLoop f)) sv (p.map π.fn) ctx g
+
+def mapStateP (f : Nat → Nat) (π : PMap) (st : State) : State :=
+  { st with stack := st.stack.map (mapSlot f), scope := mapScopeP f π st.scope }
+
+theorem mapScopeP_id (f : Nat → Nat) (sc : Scope) : mapScopeP f idP sc = mapScope f sc := by
+  cases sc with
+  | mk loops sv p ctx g => cases p <;> rfl
+
+theorem mapStateP_id (f : Nat → Nat) (st : State) : mapStateP f idP st = mapState f st := by
+  simp only [mapStateP, mapState, mapScopeP_id]
+
 section scope
-variable (f : Nat → Nat)
+variable (f : Nat → Nat) (π : PMap)
 
 @[simp] theorem mapLoop_get (l : ForLoop) (n : String) : (mapLoop f l).get n = l.get n := rfl
 @[simp] theorem mapLoop_context (l : ForLoop) : (mapLoop f l).context = l.context := rfl
@@ -48,21 +70,23 @@ theorem loopsGet_map (loops : List ForLoop) (n : String) :
   | nil => rfl
   | cons l rest ih => simp [Scope.loopsGet, ih]
 
-@[simp] theorem mapScope_forLoops (sc : Scope) : (mapScope f sc).forLoops = sc.forLoops.map (mapLoop f) := by
+@[simp] theorem mapScope_forLoops (sc : Scope) : (mapScopeP f π sc).forLoops = sc.forLoops.map (mapLoop f) := by
   cases sc; rfl
-@[simp] theorem mapScope_setVariables (sc : Scope) : (mapScope f sc).setVariables = sc.setVariables := by
+@[simp] theorem mapScope_setVariables (sc : Scope) : (mapScopeP f π sc).setVariables = sc.setVariables := by
   cases sc; rfl
-@[simp] theorem mapScope_context (sc : Scope) : (mapScope f sc).context = sc.context := by
+@[simp] theorem mapScope_context (sc : Scope) : (mapScopeP f π sc).context = sc.context := by
   cases sc; rfl
-@[simp] theorem mapScope_globalContext (sc : Scope) : (mapScope f sc).globalContext = sc.globalContext := by
+@[simp] theorem mapScope_globalContext (sc : Scope) : (mapScopeP f π sc).globalContext = sc.globalContext := by
   cases sc; rfl
 
-@[simp] theorem mapScope_getValue (sc : Scope) (n : String) : (mapScope f sc).getValue n = sc.getValue n := by
+@[simp] theorem mapScope_getValue (sc : Scope) (n : String) : (mapScopeP f π sc).getValue n = sc.getValue n := by
   cases sc with
   | mk loops sv p ctx g =>
-    simp only [mapScope]
+    simp only [mapScopeP]
     rw [Scope.getValue.eq_def, Scope.getValue.eq_def]
-    simp only [Scope.resolve, loopsGet_map]
+    cases p with
+    | none => simp only [Option.map_none, Scope.resolve, loopsGet_map]
+    | some q => simp only [Option.map_some, π.val, Scope.resolve, loopsGet_map]
 
 theorem foldl_ctx_map (loops : List ForLoop) (acc : Entries) :
     (loops.map (mapLoop f)).foldl (fun a l => ctxInto a l.context) acc
@@ -71,35 +95,35 @@ theorem foldl_ctx_map (loops : List ForLoop) (acc : Entries) :
   | nil => rfl
   | cons l rest ih => simp [ih]
 
-@[simp] theorem mapScope_dumpContext (sc : Scope) : dumpContext (mapScope f sc) = dumpContext sc := by
+@[simp] theorem mapScope_dumpContext (sc : Scope) : dumpContext (mapScopeP f π sc) = dumpContext sc := by
   simp only [dumpContext, mapScope_globalContext, mapScope_context, mapScope_setVariables,
     mapScope_forLoops, ← List.map_reverse, foldl_ctx_map]
 
-@[simp] theorem mapScope_lookupName (sc : Scope) (n : String) : lookupName (mapScope f sc) n = lookupName sc n := by
+@[simp] theorem mapScope_lookupName (sc : Scope) (n : String) : lookupName (mapScopeP f π sc) n = lookupName sc n := by
   simp [lookupName]
 
 @[simp] theorem mapScope_storeGlobal (sc : Scope) (n : String) (v : Value) :
-    (mapScope f sc).storeGlobal n v = mapScope f (sc.storeGlobal n v) := by
+    (mapScopeP f π sc).storeGlobal n v = mapScopeP f π (sc.storeGlobal n v) := by
   cases sc; rfl
 
 @[simp] theorem mapScope_storeLocal (sc : Scope) (n : String) (v : Value) :
-    (mapScope f sc).storeLocal n v = mapScope f (sc.storeLocal n v) := by
+    (mapScopeP f π sc).storeLocal n v = mapScopeP f π (sc.storeLocal n v) := by
   cases sc with
   | mk loops sv p ctx g =>
     cases loops with
     | nil => rfl
     | cons l rest => rfl
 
-@[simp] theorem mapScope_popLoop (sc : Scope) : (mapScope f sc).popLoop = mapScope f sc.popLoop := by
+@[simp] theorem mapScope_popLoop (sc : Scope) : (mapScopeP f π sc).popLoop = mapScopeP f π sc.popLoop := by
   cases sc with
-  | mk loops sv p ctx g => simp [mapScope, Scope.popLoop, List.map_tail]
+  | mk loops sv p ctx g => simp [mapScopeP, Scope.popLoop, List.map_tail]
 
 theorem mapScope_pushLoop (sc : Scope) (l : ForLoop) :
-    (mapScope f sc).pushLoop (mapLoop f l) = mapScope f (sc.pushLoop l) := by
+    (mapScopeP f π sc).pushLoop (mapLoop f l) = mapScopeP f π (sc.pushLoop l) := by
   cases sc; rfl
 
 theorem mapScope_setTopLoop (sc : Scope) (l : ForLoop) :
-    (mapScope f sc).setTopLoop (mapLoop f l) = mapScope f (sc.setTopLoop l) := by
+    (mapScopeP f π sc).setTopLoop (mapLoop f l) = mapScopeP f π (sc.setTopLoop l) := by
   cases sc with
   | mk loops sv p ctx g =>
     cases loops with
@@ -111,34 +135,35 @@ end scope
 /-! ## State operations -/
 
 section state
-variable (f : Nat → Nat)
+variable (f : Nat → Nat) (π : PMap)
 
-@[simp] theorem mapState_stack (st : State) : (mapState f st).stack = st.stack.map (mapSlot f) := rfl
-@[simp] theorem mapState_scope (st : State) : (mapState f st).scope = mapScope f st.scope := rfl
-@[simp] theorem mapState_captures (st : State) : (mapState f st).captures = st.captures := rfl
-@[simp] theorem mapState_out (st : State) : (mapState f st).out = st.out := rfl
-@[simp] theorem mapState_blocks (st : State) : (mapState f st).blocks = st.blocks := rfl
-@[simp] theorem mapState_currentBlockName (st : State) : (mapState f st).currentBlockName = st.currentBlockName := rfl
-@[simp] theorem mapState_captureBlock (st : State) : (mapState f st).captureBlock = st.captureBlock := rfl
-@[simp] theorem mapState_blockBuffer (st : State) : (mapState f st).blockBuffer = st.blockBuffer := rfl
+@[simp] theorem mapState_stack (st : State) : (mapStateP f π st).stack = st.stack.map (mapSlot f) := rfl
+@[simp] theorem mapState_scope (st : State) : (mapStateP f π st).scope = mapScopeP f π st.scope := rfl
+@[simp] theorem mapState_captures (st : State) : (mapStateP f π st).captures = st.captures := rfl
+@[simp] theorem mapState_out (st : State) : (mapStateP f π st).out = st.out := rfl
+@[simp] theorem mapState_blocks (st : State) : (mapStateP f π st).blocks = st.blocks := rfl
+@[simp] theorem mapState_currentBlockName (st : State) : (mapStateP f π st).currentBlockName = st.currentBlockName := rfl
+@[simp] theorem mapState_captureBlock (st : State) : (mapStateP f π st).captureBlock = st.captureBlock := rfl
+@[simp] theorem mapState_blockBuffer (st : State) : (mapStateP f π st).blockBuffer = st.blockBuffer := rfl
 
-theorem mapState_write (st : State) (t : List Char) : (mapState f st).write t = mapState f (st.write t) := by
+theorem mapState_write (st : State) (t : List Char) : (mapStateP f π st).write t = mapStateP f π (st.write t) := by
   unfold State.write
   simp only [mapState_captures]
   cases st.captures <;> rfl
 
 theorem mapState_emit (env : Env) (vm : VmCtx) (v : Value) (st : State) :
-    emitValue env vm v (mapState f st) = mapState f (emitValue env vm v st) := by
+    emitValue env vm v (mapStateP f π st) = mapStateP f π (emitValue env vm v st) := by
   simp [emitValue, mapState_write]
 
 end state
 
 /-! ## Two chunks related by a renaming -/
 
-/-- index `i` of the old chunk is an instruction, and the new chunk has a span at `f i` exactly
-when the old one has one at `i` -/
+/-- index `i` of the old chunk is an instruction (only needed where `f` is monotone on the
+instructions only: when `f` is monotone everywhere, as the identity is, any index will do), and the
+new chunk has a span at `f i` exactly when the old one has one at `i` -/
 def Good (c c' : Chunk) (f : Nat → Nat) (i : Nat) : Prop :=
-  i < c.code.length ∧ c'.hasSpan (f i) = c.hasSpan i
+  (i < c.code.length ∨ ∀ a b, a ≤ b → f a ≤ f b) ∧ c'.hasSpan (f i) = c.hasSpan i
 
 def GoodSlot (c c' : Chunk) (f : Nat → Nat) (s : Slot) : Prop := Good c c' f s.2.1 ∧ Good c c' f s.2.2
 
@@ -191,19 +216,22 @@ theorem good_max {i j : Nat} (hi : Good c c' f i) (hj : Good c c' f j) : Good c 
   · rw [Nat.max_eq_right h]; exact hj
   · rw [Nat.max_eq_left (by omega)]; exact hi
 
+theorem Ren.le (hR : Ren c c' f) {i j : Nat} (h : i ≤ j) (hj : Good c c' f j) : f i ≤ f j :=
+  hj.1.elim (hR.mono i j h) (fun m => m i j h)
+
 theorem map_min (hR : Ren c c' f) {i j : Nat} (hi : Good c c' f i) (hj : Good c c' f j) :
     min (f i) (f j) = f (min i j) := by
   by_cases h : i ≤ j
-  · rw [Nat.min_eq_left h, Nat.min_eq_left (hR.mono i j h hj.1)]
+  · rw [Nat.min_eq_left h, Nat.min_eq_left (hR.le h hj)]
   · have h' : j ≤ i := by omega
-    rw [Nat.min_eq_right h', Nat.min_eq_right (hR.mono j i h' hi.1)]
+    rw [Nat.min_eq_right h', Nat.min_eq_right (hR.le h' hi)]
 
 theorem map_max (hR : Ren c c' f) {i j : Nat} (hi : Good c c' f i) (hj : Good c c' f j) :
     max (f i) (f j) = f (max i j) := by
   by_cases h : i ≤ j
-  · rw [Nat.max_eq_right h, Nat.max_eq_right (hR.mono i j h hj.1)]
+  · rw [Nat.max_eq_right h, Nat.max_eq_right (hR.le h hj)]
   · have h' : j ≤ i := by omega
-    rw [Nat.max_eq_left h', Nat.max_eq_left (hR.mono j i h' hi.1)]
+    rw [Nat.max_eq_left h', Nat.max_eq_left (hR.le h' hi)]
 
 theorem combine_map (hR : Ren c c' f) (va vb : Value) (a b : SpanRange)
     (ha : GoodSlot c c' f (va, a)) (hb : GoodSlot c c' f (vb, b)) :
